@@ -789,6 +789,7 @@ impl Apply for Param {
             Param::ExpectInput(name, query) => {
                 Ok(Param::ExpectInput(name, query.apply_args(args)?))
             }
+            Param::Set(x) => Ok(Param::Set(x.apply_args(args)?)),
             x => Ok(x),
         }
     }
@@ -803,6 +804,7 @@ impl Apply for Param {
                     None => Ok(Self::ExpectInput(name, query)),
                 }
             }
+            Param::Set(x) => Ok(Param::Set(x.apply_inputs(args)?)),
             x => Ok(x),
         }
     }
@@ -818,6 +820,7 @@ impl Apply for Param {
             Param::ExpectInput(name, query) => {
                 Ok(Param::ExpectInput(name, query.apply_fees(fees)?))
             }
+            Param::Set(x) => Ok(Param::Set(x.apply_fees(fees)?)),
             x => Ok(x),
         }
     }
@@ -834,6 +837,7 @@ impl Apply for Param {
             Param::ExpectValue(name, ty) => BTreeMap::from([(name.clone(), ty.clone())]),
             // queries can have nested params
             Param::ExpectInput(_, x) => x.params(),
+            Param::Set(x) => x.params(),
             _ => BTreeMap::new(),
         }
     }
@@ -841,6 +845,7 @@ impl Apply for Param {
     fn queries(&self) -> BTreeMap<String, InputQuery> {
         match self {
             Param::ExpectInput(name, query) => BTreeMap::from([(name.clone(), query.clone())]),
+            Param::Set(x) => x.queries(),
             _ => BTreeMap::new(),
         }
     }
@@ -849,6 +854,7 @@ impl Apply for Param {
         match self {
             // queries can have nested expressions that need to be reduced
             Param::ExpectInput(name, query) => Ok(Param::ExpectInput(name, query.reduce()?)),
+            Param::Set(x) => Ok(Param::Set(x.reduce()?)),
             x => Ok(x),
         }
     }
